@@ -44,6 +44,18 @@ TEXT = {
             'RST, black holes, dropped flows (half-open on both sides), kills without FIN and restarts; every delivered message is attributed '
             '(claimed sender really sent it to this node, in order, and is a member), every pair must be connected on both sides within the bound '
             'once the network is healthy, and probes on links of every age check that "connected" means one message gets through exactly once.', '6/C14'),
+    'C16': ('Real ReplLockManager clients (one per node) with their prolongation threads run cooperatively under the common virtual clock; '
+            'after every step at most one client may consider a lock its own, late acquisitions must be reported as failed and not kept, '
+            'a holder that stops prolonging must be displaceable after the auto-unlock time (bounded-progress script at the end of every run), '
+            'and the replicated lock table is compared with a reference written from the property statement (release by a non-holder, expiry).', '6/C16'),
+    'C17': ('Generated old/new programs with versioned replicated methods on the object and on consumers run in mixed clusters with version '
+            'switches, compactions, restarts and replacement of old code; method ids are computed independently from the program description '
+            'and every apply event of every node is compared with the triple that id denotes; executed versions are compared with the version '
+            'enabled at the log position and at the submitting node; getCodeVersion() is compared with the log; bad setCodeVersion requests must '
+            'raise; a node lacking the enabled version must not advance.', '6/C17'),
+    'C19': ('Real caller threads against the real auto-tick thread with sys.monitoring yield injection at the hand-over code; unique ids make the '
+            'history unambiguous: applied at most once per node, same position everywhere, failed never applied, one callback, sync result = own '
+            'command\'s result, no foreign exception.', '6/C19'),
     'C12': ('Commands that raise deterministically (user method and documented battery errors) are mixed into adversarial runs with restarts from '
             'the journal; a re-executed position, a stalled applied index (C05 stuck oracle), diverging digests (C01 oracle, model swallows the same '
             'exception) or a wrong/duplicate callback (C02 oracle) is a violation.', '6/C12'),
@@ -70,6 +82,9 @@ TECH = {
     'C11': 'runtime monitor over an enumerated size sweep: executed vs submitted arguments, exactly-once count, escaped exceptions',
     'C13': 'history oracle (delivered sequence is a prefix of the sent one) under adversarial fragmentation and targeted corruption',
     'C14': 'runtime monitor on the real TCP stack over simulated sockets: attribution log, re-establishment bound, probe round trips',
+    'C16': 'invariant monitor after every step (mutual exclusion over all clients) + bounded-progress script + reference-table comparison',
+    'C17': 'runtime monitor with an independently computed method-id table over generated class programs',
+    'C19': 'real-thread stress with sys.monitoring yield injection; offline check of the recorded call/apply/callback history',
     'C12': 'runtime monitor: re-execution / stall / divergence detection with raising commands in the workload',
     'C08': 'reference-model monitor + crash-point enumeration by file snapshots at every storage primitive',
     'C15': 'model-based runtime comparison with builtin containers (direct, snapshot round trip, replicated)',
@@ -114,7 +129,7 @@ def main():
             'add_only': True,
         },
         'engines': [
-            {'name': 'E1 clustersim', 'path': 'rv/clustersim.py', 'serves_properties': ['C01', 'C02', 'C03', 'C04', 'C05', 'C06', 'C07', 'C09', 'C10', 'C12', 'C18', 'C20'],
+            {'name': 'E1 clustersim', 'path': 'rv/clustersim.py', 'serves_properties': ['C01', 'C02', 'C03', 'C04', 'C05', 'C06', 'C07', 'C09', 'C10', 'C12', 'C16', 'C17', 'C18', 'C20'],
              'kind_free_text': 'real SyncObj/journal/serializer per node on a simulated message-level transport under virtual time; monitors after every step'},
             {'name': 'E3 journalfuzz', 'path': 'rv/journalfuzz.py', 'serves_properties': ['C08'],
              'kind_free_text': 'FileJournal vs list model with kill-point enumeration by file snapshots; SIGKILL stress'},
@@ -124,6 +139,10 @@ def main():
              'kind_free_text': 'real TcpConnection pair on simulated sockets (rv/socksim.py), adversarial fragmentation and corruption'},
             {'name': 'E2 socksim', 'path': 'rv/e2.py', 'serves_properties': ['C14'],
              'kind_free_text': 'real SyncObj + TCPTransport + TcpServer + TcpConnection on simulated sockets/poller (rv/socksim.py) with connection-level faults'},
+            {'name': 'E6 threadstress', 'path': 'rv/threadstress.py', 'serves_properties': ['C19'],
+             'kind_free_text': 'real threads, real auto-tick, loopback sockets, sys.monitoring yield injection'},
+            {'name': 'E7 vergen', 'path': 'rv/vergen.py', 'serves_properties': ['C17'],
+             'kind_free_text': 'generated versioned class programs (source text, exec) on E1'},
             {'name': 'E5 batterymbt', 'path': 'rv/batterymbt.py', 'serves_properties': ['C15'],
              'kind_free_text': 'model-based testing of the batteries, directly and through E1'},
         ],
